@@ -153,7 +153,7 @@ def _do(job) -> Dict:
                 if s.count(old) != 1:
                     return {"kind": kind, "name": name, "status": "skipped", "why": f"anchor text occurs {s.count(old)} times in {f} (tree was edited)"}
                 open(p, "w", encoding="utf-8").write(s.replace(old, new))
-        elif kind == "patch":
+        elif kind in ("patch", "refactor"):
             r = subprocess.run(["patch", "-p1", "-s", "--no-backup-if-mismatch", "-i", spec], cwd=d, capture_output=True, text=True)
             if r.returncode != 0:
                 return {"kind": kind, "name": name, "status": "skipped", "why": "patch does not apply to the current tree"}
@@ -189,6 +189,14 @@ def sweep(prop: str, P, ctx) -> Dict:
             mp = os.path.join(sd, s, "meta.json")
             if os.path.exists(mp) and json.load(open(mp)).get("breaks_property") == prop:
                 jobs.append(("patch", f"seeded/{s}", prop, repo, os.path.join(sd, s, "patch.diff")))
+    rd = os.path.join(VERIF, "refactors")
+    if os.path.isdir(rd):
+        for s_ in sorted(os.listdir(rd)):
+            pp = os.path.join(rd, s_, "patch.diff")
+            if os.path.exists(pp):
+                touched = json.load(open(os.path.join(rd, s_, "meta.json"))).get("files_touched", [])
+                if any(t in props[prop]["anchors"]["files"] for t in touched):
+                    jobs.append(("refactor", f"refactors/{s_}", prop, repo, pp))
     for tr in SILENCE:
         jobs.append(("silence", f"{tr}", prop, repo, (tr, files)))
         for f in files:
@@ -198,7 +206,7 @@ def sweep(prop: str, P, ctx) -> Dict:
     with ThreadPoolExecutor(max_workers=16) as ex:
         results = list(ex.map(_do, jobs))
     sens = [r for r in results if r["kind"] in ("edit", "patch")]
-    sil = [r for r in results if r["kind"] == "silence"]
+    sil = [r for r in results if r["kind"] in ("silence", "refactor")]
     missed = [r for r in sens if r["status"] == "ran" and r["rc"] != 1]
     from .report import load_known
     alarmed = [r for r in sil if r["status"] == "ran" and r["rc"] != 0]
@@ -212,7 +220,8 @@ def sweep(prop: str, P, ctx) -> Dict:
             "silence_total": sum(1 for r in sil if r["status"] == "ran"),
             "silence_silent_as_expected": sum(1 for r in sil if r["status"] == "ran" and r["rc"] == 0),
             "rule": "sensitivity: one breaking edit per variant (curated edits + the independently seeded changes of this property), the check must exit 1 on the variant; "
-                    "silence: a behaviour-preserving AST rewrite of the property's anchor files, the check must exit 0 on the variant; variants are analysed, never executed",
+                    "silence: a behaviour-preserving AST rewrite of the property's anchor files, or one of the independently written behaviour-preserving refactorings under "
+                    "/verif/refactors that touches an anchor file; the check must exit 0 on the variant; variants are analysed, never executed",
         }
     }
     if missed or alarmed:
